@@ -72,6 +72,7 @@ pub fn run_scenarios(
     let mut tot = Totals { min_bound: u32::MAX, ..Default::default() };
     let t0 = std::time::Instant::now();
     let mut per: Vec<Value> = Vec::new();
+    let mut best_samples: Vec<(usize, usize, Value)> = Vec::new();
     for (i, sc) in scs.iter().enumerate() {
         let mut ec = ExploreCfg::new(sc.cfg.clone(), sc.bound);
         if sc.max_execs > 0 {
@@ -114,11 +115,18 @@ pub fn run_scenarios(
                             "states": st.states.len(), "transitions": st.transitions, "distinct_outcomes": st.outcomes.len(),
                             "max_points": st.max_points, "capped": st.capped}));
         }
-        if rep.samples.len() < 4 {
-            if let Some((_, (n, o))) = st.outcomes.iter().next() {
-                rep.sample(json!({"scenario": sc.name, "bound": sc.bound, "one_outcome": o, "schedules_with_it": n, "distinct_outcomes": st.outcomes.len()}));
-            }
+        // samples: prefer scenarios with several distinct outcomes; show one complete schedule with
+        // the maximum number of deviations (choice index per scheduling point / alternatives there)
+        if let Some((choices, nalts, o)) = &st.example {
+            let trim = |v: &Vec<String>| -> Vec<String> { v.iter().map(|x| if x.len() > 300 { format!("{}...", &x[..300]) } else { x.clone() }).collect() };
+            let cand = json!({"scenario": sc.name, "bound": sc.bound, "schedules": st.execs, "distinct_outcomes": st.outcomes.len(),
+                              "one_schedule_choices": choices, "alternatives_at_each_point": nalts, "its_observation": trim(o)});
+            best_samples.push((st.outcomes.len(), choices.iter().filter(|c| **c != 0).count(), cand));
         }
+    }
+    best_samples.sort_by(|a, b| (b.0, b.1).cmp(&(a.0, a.1)));
+    for (_, _, v) in best_samples.into_iter().take(3) {
+        rep.sample(v);
     }
     rep.add("states", tot.states);
     rep.add("transitions", tot.transitions);
